@@ -32,6 +32,13 @@ func MakeConcr(d Dims) *Concr {
 			c.Tokens[t] = append(append([]byte{}, c.Tokens[t]...), byte('0'+t))
 			c.Tokens[10+t] = append(append([]byte{}, c.Tokens[10+t]...), byte('a'+t))
 		}
+	case "emptykey":
+		// key 1 is the empty key (so a batch holding only key 1 with an empty value or a
+		// deletion is a segment without any key or value bytes); the others follow it
+		c.Keys[0] = []byte{}
+		for i := 1; i < len(c.Keys); i++ {
+			c.Keys[i] = append([]byte{0}, byte(i))
+		}
 	default:
 		panic(fmt.Sprintf("unknown concretisation profile %q", d.ConcrProfile))
 	}
